@@ -22,7 +22,7 @@ def secs(a, b):
 
 
 def run(ctx):
-    ctx.extra["rule"] = ("file sets with chosen stamps (1990-2037) and acquisition times (1-600 s): Silixa double-ended xml (stamps carry their UTC offset), Sensortran binary (epoch "
+    ctx.extra["rule"] = ("single-ended Silixa templates xml v4/v6/v7 (UTC stamps); file sets with chosen stamps (1990-2037) and acquisition times (1-600 s): Silixa double-ended xml (stamps carry their UTC offset), Sensortran binary (epoch "
                          "seconds), Sensornet .ddf (naive stamps read in timezone_input_files, incl. DST zones and stamps next to a DST transition); each read in a fresh process under "
                          "host TZ in {UTC, America/New_York, Asia/Kolkata, Pacific/Auckland} and with two output zones; intervals, instants and host independence compared; measurements within one acquisition time of a daylight-saving transition of the OUTPUT zone (EU, US, NZ)")
     ctx.trusted += ["harness vlib/props/c12.py, vlib/tz_worker.py, vlib/gen_files.py", "pandas / zoneinfo time-zone tables are runtime data, not modelled"]
@@ -60,6 +60,50 @@ def run(ctx):
                     if key in ref and ref[key] != val:
                         ctx.violation("silixa:depends-on-host-tz", f"time coordinates change with the host TZ ({host})", rec)
                     ref.setdefault(key, val)
+            # ---- single-ended Silixa templates (xml v4, v6, v7): stamps in UTC ('Z'); timeend = stamp, timestart = stamp - acquisition, time = midpoint
+            for tname in ("v4", "v6-single", "v7"):
+                base2 = int(rng.integers(631152000, 2114380800))
+                acq = int(rng.integers(1, 601))
+                stamps2 = [gen_files.stamp_str(base2 + (acq + 7) * f) for f in range(3)]
+                d = os.path.join(tmp, f"silixa_{tname}{c}")
+                gen_files.silixa_files_from(tname, d, 3, 4, stamps2, acq)
+                ref2 = {}
+                for host in hosts[:3]:
+                    for tzout in ("UTC", "Pacific/Auckland"):
+                        rec = {"reader": "silixa", "template": tname, "stamps": stamps2, "acq": acq, "host_tz": host, "timezone_netcdf": tzout}
+                        ctx.case(("silixa-single", c, tname, host, tzout), sample=rec)
+                        o = worker("silixa", d, {"timezone_netcdf": tzout}, tz=host)
+                        if "error" in o:
+                            ctx.violation(f"silixa:{tname}:raised", o["error"], rec)
+                            continue
+                        for f in range(3):
+                            if secs(o["timeend"][f], o["timestart"][f]) != acq or abs(secs(o["time"][f], o["timestart"][f]) - acq / 2) > 1:
+                                ctx.violation(f"silixa:{tname}:interval-wrong", f"timestart/time/timeend {o['timestart'][f]} {o['time'][f]} {o['timeend'][f]} for acquisition time {acq}", rec)
+                                break
+                        if tzout == "UTC" and o["timeend"] != stamps2:
+                            ctx.violation(f"silixa:{tname}:instant-wrong", f"timeend {o['timeend']} is not the stamp recorded in the file {stamps2}", rec)
+                        val = (o["time"], o["timestart"], o["timeend"])
+                        if tzout in ref2 and ref2[tzout] != val:
+                            ctx.violation(f"silixa:{tname}:depends-on-host-tz", f"time coordinates change with the host TZ ({host})", rec)
+                        ref2.setdefault(tzout, val)
+            # ---- AP Sensing: creationDate is the time axis (UTC only; another zone must be refused, not silently ignored)
+            d = os.path.join(tmp, f"apsensing{c}")
+            stamps_ap = [gen_files.stamp_str(int(rng.integers(631152000, 2114380800)) + 600 * f) for f in range(3)]
+            stamps_ap = sorted(stamps_ap)
+            gen_files.apsensing_files(d, 3, 4, stamps_ap)
+            for host in hosts[:3]:
+                rec = {"reader": "apsensing", "stamps": stamps_ap, "host_tz": host}
+                ctx.case(("apsensing", c, host), sample=rec)
+                o = worker("apsensing", d, {}, tz=host)
+                if "error" in o:
+                    ctx.violation("apsensing:raised", o["error"], rec)
+                elif o["time"] != stamps_ap:
+                    ctx.violation(f"apsensing:instant-wrong:host={host}", f"time {o['time']} is not the recorded creationDate {stamps_ap}", rec)
+            rec = {"reader": "apsensing", "timezone_netcdf": "Europe/Amsterdam"}
+            ctx.case(("apsensing-zone", c), sample=rec)
+            o = worker("apsensing", d, {"timezone_netcdf": "Europe/Amsterdam"})
+            if "error" not in o and o["time"] == stamps_ap:
+                ctx.violation("apsensing:output-zone-ignored", "timezone_netcdf='Europe/Amsterdam' was accepted but the time axis was not converted", rec)
             # ---- Sensortran: epoch seconds in the header
             d = os.path.join(tmp, f"sensortran{c}")
             ts0 = int(rng.integers(631152000, 2114380800))
